@@ -15,6 +15,8 @@
 //!           cf: choose_filtered with predicate "id is odd" (id or `_`)
 //!           into_replicas_ordered() (or `panic`)   ep: get_token_endpoints (or `x`)
 //!           np: into_iter() on a ClusterState built from the same peers with NO keyspaces
+//!           ops: three fixed interleavings of next() / nth(n) on one iterator each, `/`-separated
+//!                A = N,1,N,0,2,N   B = 0,0,N,3,N   C = N,N,5,N,0   (N = next, k = nth(k))
 use scylla::cluster::ClusterState;
 use scylla::frame::response::result::TableSpec;
 use scylla::routing::Token;
@@ -109,7 +111,25 @@ fn run_case(cx: &mut Ctx, case: &str) -> String {
             "x".to_string()
         };
         let np = ids(cs0.replica_locator().replicas_for_token(token, &strategy, dc, &table).into_iter());
-        format!("{} {} {} {} {} {} {} {}", hex_u(len as u128), iter, nth.join(","), choose, cf, ordered, ep, np)
+        // next() and nth(n) interleaved on ONE iterator
+        let seqs: [&[i32]; 3] = [&[-1, 1, -1, 0, 2, -1], &[0, 0, -1, 3, -1], &[-1, -1, 5, -1, 0]];
+        let ops: Vec<String> = seqs
+            .iter()
+            .map(|sq| {
+                let mut it = rs().into_iter();
+                sq.iter()
+                    .map(|o| {
+                        let x = if *o < 0 { it.next() } else { it.nth(*o as usize) };
+                        match x {
+                            Some((n, _)) => hex_u(n.host_id.as_u128()),
+                            None => "_".into(),
+                        }
+                    })
+                    .collect::<Vec<_>>()
+                    .join(",")
+            })
+            .collect();
+        format!("{} {} {} {} {} {} {} {} {}", hex_u(len as u128), iter, nth.join(","), choose, cf, ordered, ep, np, ops.join("/"))
     }));
     match r {
         Ok(s) => s,
@@ -146,6 +166,10 @@ fn main() {
         for p in &pre {
             if r.bool() {
                 queries.push(vary(&mut r, p));
+            }
+            let d = directed(&mut r, &topo, p);
+            if d != *p {
+                queries.push(d);
             }
         }
         for _ in 0..r.range(1, 3) {
